@@ -31,6 +31,7 @@ def main():
     src = "/var/tmp/seed/out/" + pid
     also, tier, tags, race, name, noe2e = [], "quick", "", False, None, False
     i = 1
+    meta_env = {}
     while i < len(a):
         if a[i] == "--src": src = a[i + 1]
         elif a[i] == "--also": also = a[i + 1].split(",")
@@ -39,6 +40,8 @@ def main():
         elif a[i] == "--race": race = a[i + 1] == "1"
         elif a[i] == "--name": name = a[i + 1]
         elif a[i] == "--noe2e": noe2e = True; i -= 1
+        elif a[i] == "--env":
+            k, v = a[i + 1].split("=", 1); ENV[k] = v; meta_env[k] = v
         i += 2
     global DEST
     wt = "/var/tmp/seedeval-" + (name or pid)
@@ -46,6 +49,8 @@ def main():
     subprocess.run(["git", "-C", "/repo", "worktree", "add", "--detach", wt], stdout=subprocess.DEVNULL, stderr=subprocess.DEVNULL, check=True)
     DEST = name or pid
     meta = {"property": pid, "source": src, "ran": [], "when": time.strftime("%Y-%m-%d %H:%M:%S")}
+    if meta_env:
+        meta["demo_env"] = meta_env
     try:
         patch = os.path.join(src, "patch.diff")
         rc, out = sh("git apply --index " + patch, wt)
